@@ -1,5 +1,6 @@
 import MimicProofs.Results
 import Mimic.ResultsTables
+import MimicProofs.Types
 /-!
 # C05 — Clients decode exactly the values the application returned (text and binary)
 
@@ -104,5 +105,27 @@ example :
     (binRow cols row).bind (binRowDec cols) =
       some [.int (-3), .null, .bytes [104, 105], .dur 90000000000, .temporal 2020 1 2 0 0 0 0, .int 7, .null] := by
   decide
+
+
+/-! ### the code's own length-encoded integers and strings (translated from `types.py` on every run) -/
+
+/-- `uint_len` / `str_len` / `read_uint_len` as translated from the source are the model's functions, for every input -/
+theorem lenenc_is_code (n : Nat) (s r : Mimic.Wire.Bytes) :
+    Mimic.Extracted.Types.uint_len n = Mimic.Wire.encLen n ∧ Mimic.Extracted.Types.str_len s = Mimic.Wire.encStr s ∧
+    Mimic.Extracted.Types.read_uint_len r = Mimic.Wire.decLen r :=
+  ⟨MimicProofs.Types.uint_len_eq n, MimicProofs.Types.str_len_eq s, MimicProofs.Types.read_uint_len_eq r⟩
+
+/-- **code-level round trip**: what the translated encoders write, the translated readers read back -/
+theorem code_lenenc_roundtrip (n : Nat) (h : n < 2 ^ 64) (rest : Mimic.Wire.Bytes) :
+    Mimic.Extracted.Types.read_uint_len (Mimic.Extracted.Types.uint_len n ++ rest) = some (n, rest) :=
+  MimicProofs.Types.code_lenenc_roundtrip n h rest
+
+theorem code_str_roundtrip (s rest : Mimic.Wire.Bytes) (h : s.length < 2 ^ 63) :
+    Mimic.Extracted.Types.read_str_len (Mimic.Extracted.Types.str_len s ++ rest) = some (s, rest) :=
+  MimicProofs.Types.code_str_roundtrip s rest h
+
+/-- every function of `types.py` is either translated or on the list of hand-modelled ones -/
+theorem types_coverage :
+    Mimic.Extracted.Types.skipped = ["peek", "read_double", "read_float", "read_str_null"] ∧ Mimic.Extracted.Types.translated.length = 25 := by decide
 
 end MimicProps.C05
